@@ -11,7 +11,9 @@ Every program is rendered as a real test case and run (--keep) in a world where 
 under every root (home, act-home, directory of the source file, an absolute directory, act, tmp, result, the
 current directory) with a content that names its location, so that the observation identifies where the path was
 resolved: created files/directories are found by snapshots of all roots, `cd` by `pwd`, read arguments by the
-content read / the program run / the absolute path a probe receives.  Home directories, the directory of the
+content read / the program run / the absolute path a probe receives.  Programs  def.. USE cd USE  use the same
+path expression twice around a change of directory (use k designates the entry uk below it): each use must
+resolve against the directory current at THAT use.  Home directories, the directory of the
 source file and the absolute directory are compared before/after.
 
 Known finding D4 (absolute FILE-NAME escapes the relativity root): the same model with the named deviation
@@ -25,9 +27,9 @@ from concurrent.futures import ThreadPoolExecutor
 
 from harness import core
 
-ACTIONS = ['AddCd', 'AddBase', 'AddLink', 'AddUse', 'ParseOk', 'ParseReject', 'ValidateOk', 'ValidateReject',
+ACTIONS = ['AddCd', 'AddBase', 'AddLink', 'AddUse', 'AddUseAgain', 'ParseOk', 'ParseReject', 'ValidateOk', 'ValidateReject',
            'ExecDef', 'ExecCd', 'ExecUse']
-INVARIANTS = ['TypeOK', 'ResolvesUnderRoot', 'RelCdAtUse', 'WriteRolesNeverReachHome', 'CwdInSandbox',
+INVARIANTS = ['TypeOK', 'ResolvesUnderRoot', 'RelCdAtUse', 'CdDoesNotMoveOtherRoots', 'WriteRolesNeverReachHome', 'CwdInSandbox',
               'WriteAcceptsOnlySandbox', 'CdAcceptsListed', 'RejectionNamed', 'RejectedBeforeExecution',
               'ListedIsAccepted']
 ALL_ROLES = ['file', 'dir', 'copydst', 'cd', 'copysrc', 'contentsof', 'runprog', 'existingfile', 'contents',
@@ -41,17 +43,17 @@ CONSTANTS = {
     'quick': dict(MaxDepth=2, BaseSfx=['d', 'de', 'S', 'AL', 'ASd'], LinkSfx=['E', 'e', 'AS'],
                   PlainBaseSfx=['d', 'AS'], PlainLinkSfx=['E', 'e'],
                   DeepBaseSfx=['d', 'AS'], DeepLinkSfx=['e'], Roles=ALL_ROLES, Phases=ALL_PHASES,
-                  RichPhases=['setup'], DeepPhases=['setup'], CdPos=[0, 1, 2], CdForms=['tmp']),
+                  RichPhases=['setup'], DeepPhases=['setup'], CdPos=[0, 1, 2, 3], CdForms=['tmp']),
     'thorough': dict(MaxDepth=3, BaseSfx=['E', 'd', 'de', 'S', 'Se', 'dT', 'AL', 'AS', 'ASd'],
                      LinkSfx=['E', 'e', 'T', 'ed', 'AL', 'AS'],
                      PlainBaseSfx=['d', 'de', 'S', 'AL', 'ASd'], PlainLinkSfx=['E', 'e', 'AS'],
                      DeepBaseSfx=['d', 'AS'], DeepLinkSfx=['E', 'e'], Roles=ALL_ROLES, Phases=ALL_PHASES,
-                     RichPhases=['setup', 'assert'], DeepPhases=['setup'], CdPos=[0, 1, 2],
+                     RichPhases=['setup', 'assert'], DeepPhases=['setup'], CdPos=[0, 1, 2, 3],
                      CdForms=['tmp', 'sub']),
     # random behaviours beyond the exhaustive bound (no absolute FILE-NAMEs: the deviation is not involved)
     'simulate': dict(MaxDepth=6, BaseSfx=SIM_BASE, LinkSfx=SIM_LINK, PlainBaseSfx=SIM_BASE, PlainLinkSfx=SIM_LINK,
                      DeepBaseSfx=SIM_BASE, DeepLinkSfx=SIM_LINK, Roles=ALL_ROLES, Phases=ALL_PHASES,
-                     RichPhases=ALL_PHASES, DeepPhases=ALL_PHASES, CdPos=[0, 1, 2], CdForms=['tmp', 'sub']),
+                     RichPhases=ALL_PHASES, DeepPhases=ALL_PHASES, CdPos=[0, 1, 2, 3], CdForms=['tmp', 'sub']),
 }
 
 
@@ -86,10 +88,13 @@ def tag(loc):
     return loc['root'] + ''.join('-' + c for c in loc['comps'])
 
 
-def render_expr(x, abs_dir):
+def render_expr(x, abs_dir, leaf=None):
+    """leaf: with two uses of one path expression, use k designates the entry uk below it"""
     names = []
     for p in x['parts']:
         names.append({'S': '@[S]@', 'T': '@[T]@', 'AS': '@[A]@', 'AL': abs_dir}.get(p, p))
+    if leaf:
+        names.append(leaf)
     fname = '/'.join(names) if names else "''"
     rel = x['rel']
     if rel in RELOPT:
@@ -102,23 +107,23 @@ def render_expr(x, abs_dir):
     return '@[P%d]@' % x['sym'] + ('/' + fname if names else '')
 
 
-def use_lines(role, p, out, want_tag):
-    probe = "run % sh -c 'echo \"$1\" > " + out + "/arg.txt' sh"
+def use_lines(role, p, out, want_tag, k):
+    probe = "run % sh -c 'echo \"$1\" >> " + out + "/arg.txt' sh"
     match = "any line : contents matches ' %s$'" % want_tag
     return {
         'file': ['file %s = W' % p],
         'dir': ['dir %s' % p],
         'copydst': ['copy src.txt %s' % p],
         'cd': ['cd %s' % p, '$ pwd > %s/pwd.txt' % out],
-        'copysrc': ['copy %s -rel-tmp zz-copied' % p],
-        'contentsof': ['file -rel-tmp zz-read = -contents-of %s' % p],
+        'copysrc': ['copy %s -rel-tmp zz-copied%d' % (p, k)],
+        'contentsof': ['file -rel-tmp zz-read%d = -contents-of %s' % (k, p)],
         'runprog': ['run %s' % p],
         'existingfile': ['%s -existing-file %s' % (probe, p)],
         'contents': ['contents %s : %s' % (p, match)],
         'exists': ['exists %s : type file && contents %s' % (p, match)],
         'dircontents': ['dir-contents %s : matches -full { m-%s : type file }' % (p, want_tag)],
         'actprog': [p],
-        'def': ['def path Q = %s' % p, '%s @[Q]@' % probe],
+        'def': ['def path Q%d = %s' % (k, p), '%s @[Q%d]@' % (probe, k)],
     }[role]
 
 
@@ -126,7 +131,7 @@ def pass_alts(task):
     seen, out = set(), []
     for a in task['alts'] + task['dalts']:
         if a['outcome'] == 'PASS':
-            k = json.dumps([a['resolved'], a['val'], a['cwdAtUse']], sort_keys=True)
+            k = json.dumps(a['uses'], sort_keys=True)
             if k not in seen:
                 seen.add(k)
                 out.append(a)
@@ -139,19 +144,18 @@ def script_text(out, t):
 
 def world(task, dirs):
     """The fixture: the relative path of every predicted resolution exists under EVERY root and under the
-    current directory of the use, typed by the role, with a content naming its location.
+    current directory of every use, typed by the role, with a content naming its location.
     -> (host entries, sandbox entries); an entry is (root, comps, 'f' | 'd' | 'p')  ('p': parent directory only)."""
     role = task['role']
     kind = 'f' if role in FILE_ROLES else 'd' if role in DIR_ROLES else 'p' if role in CREATE_ROLES else None
     places = []
     if kind:
         for a in pass_alts(task):
-            rc = a['val']['comps']
             bases = [{'root': r, 'comps': []} for r in HOST_ROOTS + SDS_ROOTS]
-            if a['cwdAtUse']['root'] != '-':
-                bases.append(a['cwdAtUse'])
-            for b in bases:
-                places.append((b['root'], tuple(b['comps']) + tuple(rc)))
+            bases += [u['cwdAtUse'] for u in a['uses']]        # (of EVERY use: also where a stale value points)
+            for u in a['uses']:
+                for b in bases:
+                    places.append((b['root'], tuple(b['comps']) + tuple(u['rc'])))
     host, sds = [], [('act', ('c',), 'D'), ('tmp', ('c',), 'D')]
     for root, comps in sorted(set(places)):
         if not comps:
@@ -210,17 +214,21 @@ def concretize(task, cd):
     dirs = {'here': cd.home, 'home': os.path.join(cd.home, 'hm'), 'acthome': os.path.join(cd.home, 'ah'),
             'abs': abs_dir}
     pa = pass_alts(task)
-    want = tag(pa[0]['resolved']) if pa else 'none'
+    two = task['cdpos'] == 3
+    n_use = 0
     setup = ['$ sh %s/populate.sh' % cd.home, 'def string S = d', 'def string T = e', 'def string A = %s' % abs_dir]
     body, act = [], []
     for ins in task['prog']:
-        p = render_expr(ins, abs_dir)
+        if ins['op'] == 'use':
+            n_use += 1
+        p = render_expr(ins, abs_dir, leaf='u%d' % n_use if two and ins['op'] == 'use' else None)
         if ins['op'] == 'def':
             body.append('def path P%d = %s' % (sum(1 for l in body if l.startswith('def path P')) + 1, p))
         elif ins['op'] == 'cd':
             body.append('cd %s' % p)
         else:
-            lines = use_lines(task['role'], p, cd.out, want)
+            want = tag(pa[0]['uses'][n_use - 1]['resolved']) if pa and len(pa[0]['uses']) >= n_use else 'none'
+            lines = use_lines(task['role'], p, cd.out, want, n_use)
             if task['role'] == 'actprog':
                 act = lines
             else:
@@ -309,7 +317,7 @@ def exec_case(task, cd):
                 full = root + '/' + rel
                 if full in made or full in ('result/exit-code', 'result/stdout', 'result/stderr'):
                     continue
-                if full in ('tmp/zz-read', 'tmp/zz-copied'):
+                if root == 'tmp' and rel.startswith('zz-'):
                     zz[rel] = tag_in(read_if(os.path.join(sds_dir, full)))
                     continue
                 sds_new.append([root, rel.split('/'), v[:1]])
@@ -320,6 +328,8 @@ def exec_case(task, cd):
         s = s.rstrip('\n')
         return dict(loc=loc_of_path(s, dirs, sds_dir), text=s)
 
+    args = read_if(os.path.join(cd.out, 'arg.txt'))
+
     ran = read_if(os.path.join(cd.out, 'ran.txt'))
     first = lambda s: (s.splitlines() or [''])[0]
     return dict(exit=r['exit'], exception=r['exception'], verdict=first(r['stderr']), stderr=r['stderr'][:700],
@@ -327,7 +337,7 @@ def exec_case(task, cd):
                 sandboxes=len(boxes), populated=os.path.exists(os.path.join(cd.out, 'populated')),
                 host_changed=host_changed, sds_new=sds_new, zz=zz,
                 ran=ran.split() if ran is not None else [],
-                arg=as_loc(read_if(os.path.join(cd.out, 'arg.txt'))),
+                arg=[as_loc(l) for l in args.splitlines()] if args is not None else [],
                 pwd=as_loc(read_if(os.path.join(cd.out, 'pwd.txt'))),
                 expected_path_of=dict(dirs=dirs, sds=sds_dir), text=text)
 
@@ -363,34 +373,39 @@ def matches(task, alt, o):
         return 'Accepted: verdict %r exit %s, specification PASS' % (o['verdict'], o['exit'])
     if not o['populated'] or o['sandboxes'] != 1 or not o['stdout_is_sds']:
         return 'Machinery: fixture / sandbox not as expected'
-    loc = alt['resolved']
+    uses = alt['uses']
     want_host, want_sds = [], []
     if role in CREATE_ROLES:
-        ent = [loc['root'], loc['comps'], 'd' if role == 'dir' else 'f']
-        (want_host if loc['root'] in HOST_ROOTS else want_sds).append(ent)
-    if o['host_changed'] != want_host:
+        for u in uses:
+            loc = u['resolved']
+            ent = [loc['root'], loc['comps'], 'd' if role == 'dir' else 'f']
+            (want_host if loc['root'] in HOST_ROOTS else want_sds).append(ent)
+    if sorted(o['host_changed']) != sorted(want_host):
         return 'HomeUnchanged/CreatedWhere: outside the sandbox %s, specification %s' % (o['host_changed'][:3], want_host)
-    if o['sds_new'] != want_sds:
+    if sorted(o['sds_new']) != sorted(want_sds):
         return 'CreatedWhere: in the sandbox %s, specification %s' % (o['sds_new'][:3], want_sds)
-    t = tag(loc)
+    tags = [tag(u['resolved']) for u in uses]
     if role == 'cd':
-        if not o['pwd'] or o['pwd']['loc'] != loc:
-            return 'ResolvedWhere: pwd %s, specification %s' % (o['pwd'] and o['pwd']['text'], t)
+        if not o['pwd'] or o['pwd']['loc'] != uses[-1]['resolved']:
+            return 'ResolvedWhere: pwd %s, specification %s' % (o['pwd'] and o['pwd']['text'], tags)
     elif o['pwd']:
         return 'Machinery: unexpected pwd record'
     if role in ('def', 'existingfile'):
         # the rendered value is an absolute path string: the very string (or, should the scratch directory be
         # reached through a symbolic link, a string that denotes the same location)
-        if not o['arg'] or (o['arg']['text'] != path_string(loc, o)
-                            and not (o['arg']['text'].startswith('/') and '/../' not in o['arg']['text'] + '/'
-                                     and os.path.realpath(o['arg']['text']) == os.path.realpath(path_string(loc, o)))):
-            return 'ResolvedWhere: rendered %s, specification %s' % (o['arg'] and o['arg']['text'], t)
+        def same(text, want):
+            return text == want or (text.startswith('/') and '/../' not in text + '/'
+                                    and os.path.realpath(text) == os.path.realpath(want))
+        if len(o['arg']) != len(uses) or not all(same(a['text'], path_string(u['resolved'], o))
+                                                 for a, u in zip(o['arg'], uses)):
+            return 'ResolvedWhere: rendered %s, specification %s' % ([a['text'] for a in o['arg']], tags)
     elif o['arg']:
         return 'Machinery: unexpected arg record'
-    want_ran = [t] if role in ('runprog', 'actprog') else []
+    want_ran = tags if role in ('runprog', 'actprog') else []
     if o['ran'] != want_ran:
         return 'ResolvedWhere: program run %s, specification %s' % (o['ran'], want_ran)
-    want_zz = {'copysrc': {'zz-copied': t}, 'contentsof': {'zz-read': t}}.get(role, {})
+    name = {'copysrc': 'zz-copied', 'contentsof': 'zz-read'}.get(role)
+    want_zz = {'%s%d' % (name, k + 1): t for k, t in enumerate(tags)} if name else {}
     if o['zz'] != want_zz:
         return 'ResolvedWhere: contents read %s, specification %s' % (o['zz'], want_zz)
     return None
@@ -411,7 +426,7 @@ def prog_key(c):
     return json.dumps([c['role'], c['phase'], [[i['op'], i['rel'], i['sym'], i['sfx']] for i in c['prog']]])
 
 
-ALT_FIELDS = ('outcome', 'resolved', 'cwdAtUse', 'val')
+ALT_FIELDS = ('outcome', 'uses')
 
 
 def build_tasks(ideal, dev):
@@ -499,11 +514,11 @@ def negative_controls(ctx, tasks, obs):
             else:
                 o['populated'] = True
         elif m == 3:
-            k = 'pwd' if o['pwd'] else 'arg' if o['arg'] else None
-            if k is None:
+            rec = o['pwd'] if o['pwd'] else o['arg'][-1] if o['arg'] else None
+            if rec is None:
                 continue
-            o[k]['text'] += '/e'
-            o[k]['loc'] = dict(o[k]['loc'] or NOLOC, comps=(o[k]['loc'] or NOLOC)['comps'] + ['e'])
+            rec['text'] += '/e'
+            rec['loc'] = dict(rec['loc'] or NOLOC, comps=(rec['loc'] or NOLOC)['comps'] + ['e'])
         elif m == 4:
             if o['ran']:
                 o['ran'] = [o['ran'][0].replace('-d', '-e', 1) + '-x']
@@ -514,11 +529,12 @@ def negative_controls(ctx, tasks, obs):
         else:
             # corrupt the expectation instead: the specification's location loses its last component
             t = json.loads(json.dumps(t))
-            alts = [a for a in t['alts'] if a['outcome'] == 'PASS' and a['resolved']['comps']]
+            alts = [a for a in t['alts'] if a['outcome'] == 'PASS' and a['uses'][-1]['resolved']['comps']]
             if not alts or t['role'] in ('contents', 'exists', 'dircontents'):
                 continue
             for a in t['alts']:
-                a['resolved'] = dict(a['resolved'], comps=a['resolved']['comps'][:-1])
+                u = a['uses'][-1]
+                u['resolved'] = dict(u['resolved'], comps=u['resolved']['comps'][:-1])
         tried += 1
         per_kind[m] = per_kind.get(m, 0) + 1
         rejected += judge(t, o)[0] is not None
@@ -541,7 +557,7 @@ def run(ctx):
     with ThreadPoolExecutor(5) as ex:
         f_sim = ex.submit(ctx.tlc, 'PathsExport',
                           cfg(CONSTANTS['simulate'], invariants=INVARIANTS + ['Export'], may_reject=False), workers=1,
-                          simulate='num=%d' % (1000 if quick else 10000), depth=40, seed=ctx.seed + 1,
+                          simulate='num=%d' % (700 if quick else 10000), depth=40, seed=ctx.seed + 1,
                           name='simulate', timeout=3000, heap='3g')
         f_mc = ex.submit(ctx.tlc, 'Paths', cfg(consts), coverage=True, name='mc', workers=8, heap='4g')
         f_dv = ex.submit(ctx.tlc, 'Paths', cfg(consts, [DEVIATION], ['WriteRolesNeverReachHome']), workers=2,
@@ -577,19 +593,23 @@ def run(ctx):
     # evidence
     picks = [j for j, t in enumerate(tasks) if t['depth'] == 2 and t['role'] in ('file', 'cd', 'contentsof')]
     rnd = random.Random(ctx.seed)
-    for j in rnd.sample(picks, min(4, len(picks))) + [j for j, t in enumerate(tasks) if t['d4']][:1]:
+    twice = [j for j, t in enumerate(tasks) if t['cdpos'] == 3 and t['depth'] >= 1 and t['role'] in ('file', 'contents')]
+    for j in (rnd.sample(picks, min(3, len(picks))) + rnd.sample(twice, min(1, len(twice)))
+              + [j for j, t in enumerate(tasks) if t['d4']][:1]):
         t, o = tasks[j], obs[j]
         ctx.sample(dict(role=t['role'], phase=t['phase'], text=o.get('text'),
-                        specification=[dict(outcome=a['outcome'], resolved=a['resolved']) for a in t['alts']],
+                        specification=[dict(outcome=a['outcome'], resolved=[u['resolved'] for u in a['uses']])
+                                       for a in t['alts']],
                         observed=dict(verdict=o.get('verdict'), created=o.get('sds_new'), outside=o.get('host_changed'),
-                                      pwd=o.get('pwd') and o['pwd']['loc'], arg=o.get('arg') and o['arg']['loc'],
+                                      pwd=o.get('pwd') and o['pwd']['loc'], arg=[a['loc'] for a in o.get('arg') or []],
                                       ran=o.get('ran'), read=o.get('zz'))))
     ctx.cov['exhaustive'] = True
     ctx.cov['constants'] = {k: v for k, v in consts.items()}
     ctx.cov['rule'] = (
         'every terminal state of Paths.tla for the constants of the tier: role (13) x phase x chain of path-symbol '
         'definitions up to depth %d (-rel SYMBOL / @[SYMBOL]@[/suffix]) x relativity option or default x FILE-NAME '
-        'shape x context cd (none / before the definitions / between definitions and use), plus %d random deeper '
+        'shape x context cd (none / before the definitions / between definitions and use / after the use, followed by a '
+        'second use of the same path expression), plus %d random deeper '
         'chains (depth <= 6) from TLC -simulate; non-trivial = a chain, a context cd, a rejection, or a FILE-NAME '
         'that is not one literal component; distinct by program text' % (consts['MaxDepth'], len(deep)))
     ctx.assumptions += [
